@@ -92,6 +92,7 @@ class State:
 
 
 MUTATORS = {"take", "replace", "remove", "remove_entry", "clear", "drain", "pop", "retain", "truncate", "swap_remove", "entry", "get_or_insert", "get_or_insert_with", "insert_unique", "extend", "append", "swap", "sort", "sort_by", "dedup", "reverse", "rotate_left", "rotate_right", "split_off", "get_mut", "iter_mut", "values_mut", "as_mut", "last_mut", "first_mut", "set", "push_front", "pop_front", "pop_back"}
+FIELD_ALIAS = {}  # actual (dotted) field path of the manager being interpreted -> canonical role name (vlib/mgrstate.py)
 ALIAS = {}  # actual function key -> role name (vlib/roles.py): canonical hole names do not depend on what a helper is called
 
 
@@ -267,11 +268,48 @@ class Interp:
         return [(st, H("path", full))]
 
     def ev_ref(self, e, st):
+        if e.get("mut"):
+            fp = self._self_path(e["e"], st)
+            if fp is not None:
+                # a mutable borrow of a piece of the manager's state handed to a helper: writes through it are writes to
+                # the field
+                return [(st, {"v": "fieldref", "field": fp})]
         return self.ev(e["e"], st)
+
+    def _self_path(self, e, st):
+        """dotted field path if `e` is self.a[.b..] (relative to the current self prefix), else None"""
+        names = []
+        while e.get("k") == "field":
+            names.append(e["name"])
+            e = e["e"]
+        if not names or not rx.is_var(e, "self"):
+            return None
+        return st.env.get("__selfprefix", "") + ".".join(reversed(names))
+
+    def _field_value(self, path, st, node=None):
+        ty = self._state_ty(path, st)
+        if ty is not None:
+            return {"v": "selfsub", "prefix": path + ".", "ty": ty}
+        if path in st.fields:
+            v = st.fields[path]
+            return v if not isinstance(v, list) else {"v": "list", "items": v, "field": path, "open": True}
+        return H("field", "self." + path, field=path)
+
+    def _state_ty(self, path, st):
+        lay = st.env.get("__layout")
+        if not lay:
+            return None
+        t = lay["paths"].get(path)
+        if t is not None and any(q.startswith(path + ".") for q in lay["paths"]):
+            return t
+        return None
 
     def ev_unary(self, e, st):
         if e["op"] == "*":
-            return self.ev(e["e"], st)
+            out = []
+            for s1, v in self.ev(e["e"], st):
+                out.append((s1, self._field_value(v["field"], s1) if isinstance(v, dict) and v.get("v") == "fieldref" else v))
+            return out
         out = []
         for s1, v in self.ev(e["e"], st):
             if e["op"] == "!" and v.get("v") == "bool":
@@ -305,12 +343,15 @@ class Interp:
     def ev_field(self, e, st):
         base = e["e"]
         if rx.is_var(base, "self"):
-            name = e["name"]
-            if name in st.fields:
-                return [(st, st.fields[name] if not isinstance(st.fields[name], list) else {"v": "list", "items": st.fields[name], "field": name, "open": True})]
-            return [(st, H("field", "self." + name, field=name))]
+            name = st.env.get("__selfprefix", "") + e["name"]
+            return [(st, self._field_value(name, st))]
         out = []
         for s1, v in self.ev(base, st):
+            if v.get("v") == "selfsub":
+                out.append((s1, self._field_value(v["prefix"] + e["name"], s1)))
+                continue
+            if v.get("v") == "fieldref":
+                v = self._field_value(v["field"], s1)
             if v.get("v") == "struct" and e["name"] in v["fields"]:
                 out.append((s1, v["fields"][e["name"]]))
             elif v.get("v") == "tuple" and e["name"].isdigit() and int(e["name"]) < len(v["xs"]):
@@ -557,9 +598,14 @@ class Interp:
         out = []
         for s1, v in self.ev(e["rhs"], st):
             lhs = e["lhs"]
-            if lhs["k"] == "field" and rx.is_var(lhs["e"], "self"):
-                s1.fields[lhs["name"]] = v
-                s1.effects.append(("assign", lhs["name"], v))
+            fp = self._self_path(lhs, s1) if lhs["k"] == "field" else None
+            if fp is None and lhs["k"] == "unary" and lhs["op"] == "*":
+                tgt = [x for _, x in self.ev(lhs["e"], s1.fork())]
+                if len(tgt) == 1 and isinstance(tgt[0], dict) and tgt[0].get("v") == "fieldref":
+                    fp = tgt[0]["field"]
+            if fp is not None:
+                s1.fields[fp] = v
+                s1.effects.append(("assign", fp, v))
             elif lhs["k"] == "path" and len(lhs["segs"]) == 1:
                 s1.env[lhs["segs"][0]] = v
             else:
@@ -720,7 +766,7 @@ class Interp:
         try:
             s1 = st.fork()
             saved_env, saved_ret = s1.env, s1.ret
-            s1.env = {}
+            s1.env = {"__layout": saved_env.get("__layout")}
             s1.ret = None
             names = [n for n, _ in fn.params]
             for (n, ty), v in zip(fn.params, argv):
@@ -762,7 +808,14 @@ class Interp:
         return out
 
     def method(self, e, m, rv, argv, st):
+        if isinstance(rv, dict) and rv.get("v") == "fieldref":
+            rv = self._field_value(rv["field"], st)
         k = rv.get("v") if isinstance(rv, dict) else None
+        if k == "selfsub":
+            key = "%s::%s" % (rv["ty"], m)
+            if key in self.f.fns:
+                return self.call_method(key, argv, st, e, prefix=rv["prefix"])
+            return [(st, H("mcall", src(e), method=m, recv=H("field", "self." + rv["prefix"][:-1], field=rv["prefix"][:-1]), args=argv, ty=None))]
         if k == "bufref" and m == "push_str" and len(argv) == 1:
             v = argv[0]
             st.buf = st.buf + (v["parts"] if is_str(v) else [("h", v)])
@@ -776,6 +829,9 @@ class Interp:
                 if k == "some":
                     return [(st, rv["x"])]
                 if k == "hole":
+                    if (canon(rv), "Some") in st.conds:
+                        # the path condition says the option is Some: the same value `if let Some(x)` would bind
+                        return [(st, some_of(rv))]
                     return [(st, H("unwrap", src(e), of=rv, ty=rv.get("ty")))]
             if m == "to_string" and k in ("int",):
                 return [(st, S([C(str(rv["n"]))]))]
@@ -863,7 +919,7 @@ class Interp:
                         if kk.startswith("<%s as " % sty) and kk.endswith("::" + m):
                             key = kk
             if key:
-                return self.call_method(key, argv, st, e)
+                return self.call_method(key, argv, st, e, prefix=st.env.get("__selfprefix", ""))
         if k == "list" and rv.get("field") and m == "push" and len(argv) == 1:
             st.fields[rv["field"]] = st.fields[rv["field"]] + [argv[0]]
             st.effects.append(("push", rv["field"], argv[0]))
@@ -878,6 +934,9 @@ class Interp:
             return [(st, {"v": "unit"})]
         if k == "hole" and rv.get("kind") == "field" and m in ("insert",):
             st.effects.append(("insert", rv["field"], argv))
+            if len(argv) == 2:
+                mk = "#map:" + rv["field"]
+                st.fields[mk] = [x for x in st.fields.get(mk, []) if x[0] != canon(argv[0])] + [(canon(argv[0]), argv[1])]
             return [(st, {"v": "unit"})]
         if k == "hole" and rv.get("kind") == "field" and m in MUTATORS:
             # the generator's own state is changed in a way the interpreter has no model for: every rule that reads the
@@ -885,6 +944,10 @@ class Interp:
             st.unknown.append("state-changing call self.%s.%s(..) is not modelled" % (rv.get("field"), m))
             return [(st, H("mcall", src(e), method=m, recv=rv, args=argv, ty=None))]
         if k == "hole" and rv.get("kind") == "field" and m in ("get", "contains_key"):
+            # an entry inserted earlier on this very path is known to be there, with the value it was given
+            for kc, val in st.fields.get("#map:" + rv["field"], []) if len(argv) == 1 else []:
+                if kc == canon(argv[0]):
+                    return [(st, {"v": "some", "x": val} if m == "get" else {"v": "bool", "b": True, "src": src(e)})]
             return [(st, H("lookup", src(e), field=rv["field"], key=argv, method=m))]
         if k == "hole" and rv.get("kind") == "payload" and m == "compile":
             st.buf = st.buf + [("sub", rv)]
@@ -984,7 +1047,7 @@ class Interp:
             return res
         return None
 
-    def call_method(self, key, argv, st, callnode):
+    def call_method(self, key, argv, st, callnode, prefix=""):
         fn = self.f.fns.get(key)
         if fn is None or self.depth >= self.maxdepth:
             return [(st, H("call", src(callnode), callee=key, args=argv))]
@@ -992,7 +1055,7 @@ class Interp:
         try:
             s1 = st.fork()
             saved_env, saved_ret = s1.env, s1.ret
-            s1.env = {"__fn": fn}
+            s1.env = {"__fn": fn, "__selfprefix": prefix, "__layout": saved_env.get("__layout")}
             s1.ret = None
             for (n, ty), v in zip(fn.params, argv):
                 if n:
@@ -1043,12 +1106,30 @@ class Interp:
         return [(st, {"v": "unit"})]
 
     # -------------------------------------------------------------- entry points
-    def run_fn(self, key, bindings=None, fields=None, self_kind=None):
+    def run_fn(self, key, bindings=None, fields=None, self_kind=None, raw_fields=False):
         """Abstractly execute a function. Parameters of type `&mut String` become the buffer; `&mut dyn X`
         become manager holes; everything else a param hole (tainted by type)."""
         fn = self.f.fn(key)
         st = State()
         st.env["__fn"] = fn
+        st.env["__selfprefix"] = ""
+        FIELD_ALIAS.clear()
+        sty = norm_ty(fn.impl["self_ty"]) if fn.impl is not None else None
+        if sty in self.f.structs and not raw_fields:
+            from . import mgrstate
+
+            if any(t == "Vec<String>" for t in mgrstate.flatten(self.f, sty).values()):
+                lay = mgrstate.layout(self.f, sty)
+                st.env["__layout"] = lay
+                FIELD_ALIAS.update(lay["alias"])
+                if fields is not None and fields.get("__auto__"):
+                    fields = mgrstate.initial_fields(self.f, sty)
+        elif sty in self.f.structs:
+            from . import mgrstate
+
+            st.env["__layout"] = dict(paths=mgrstate.flatten(self.f, sty), alias={})
+        if fields is not None and fields.get("__auto__"):
+            fields = {}
         for pos, (n, ty) in enumerate(fn.params):
             if not n:
                 continue
@@ -1365,7 +1446,7 @@ def canon(h):
     if k == "proj":
         return "%s.%s%s" % (canon(h.get("of")), h.get("field"), spec)
     if k == "field":
-        return "self.%s%s" % (h.get("field"), spec)
+        return "self.%s%s" % (FIELD_ALIAS.get(h.get("field"), h.get("field")), spec)
     if k == "cast":
         return "(%s as %s)%s" % (canon(h["operands"][0]), h.get("to"), spec)
     if k == "expr":
@@ -1376,7 +1457,7 @@ def canon(h):
     if k == "unwrap":
         return "%s.unwrap()%s" % (canon(h.get("of")), spec)
     if k == "lookup":
-        return "self.%s.%s(%s)%s" % (h.get("field"), h.get("method"), ",".join(canon(a) for a in h.get("key", [])), spec)
+        return "self.%s.%s(%s)%s" % (FIELD_ALIAS.get(h.get("field"), h.get("field")), h.get("method"), ",".join(canon(a) for a in h.get("key", [])), spec)
     if k == "debug":
         return "{:?}(%s)" % canon(h.get("of"))
     if k == "path":
